@@ -14,11 +14,14 @@ A program is a dict
     {"kind": "tx"|"plain", "mode": "fast"|"locked"|"serializable", "timeout": <u, multiple of 20>,
      "form": "ctx"|"dec", "ops": [op, ...]}
     op = ["set",k,v] | ["incr",k,n] | ["get",k] | ["del",k] | ["sleep",ticks] | ["raise"] | ["nin",form] | ["nout"]
+       | ["gc"]  (environment event, not part of the model: an abandoned call of the decorated function is finalised
+                  while this task runs; it must not affect this task)
 Keys are small ints (store key "k<i>").  A run is a pure function of (init store, programs, schedule).
 """
 from __future__ import annotations
 
 import asyncio
+import contextvars
 from typing import Any
 
 from . import vtime
@@ -300,6 +303,19 @@ def execute(init: dict, programs: list[dict], schedule: list[int], snapshot=True
                         await asyncio.sleep(op[1] * 5 / U)
                     elif op[0] == "raise":
                         raise BodyError()
+                    elif op[0] == "gc":
+                        # an abandoned call of the decorated function (started in its own context, suspended in its
+                        # body) is finalised - as the garbage collector would - while *this* task is running
+                        fut = loop.create_future()
+
+                        async def never():
+                            await fut
+                        coro = dec_for(mode, timeout)(never)
+                        contextvars.Context().run(coro.send, None)
+                        try:
+                            coro.close()
+                        except Exception:       # what the collector would print as "Exception ignored in"
+                            pass
                     else:
                         raise SchedError(f"bad op {op}")
 
